@@ -166,8 +166,7 @@ def run(ctx) -> None:
             res.case(("explain-model", k))
             model = dict(a)
             if model.get("r") == "found":
-                cats = " ".join(f"[{x}]" for x in model["categories"])
-                model = {"r": "found", "head": f"{model['prefix']}{model['code']}: {model['name'] or '<name unknown>'} {cats}"}
+                model = {"r": "found", "head": model["head"]}  # Model/Catalogue.lean: CheckInfo.explainHeader
             if model != impl:
                 res.disagree("explain", {"prefix": k[0], "code": k[1]}, model, impl)
     else:
